@@ -460,6 +460,25 @@ def execute(case, scratch):
                                                   % (' '.join(argv), target, cmd['class'], needles[0][:120], r.exit,
                                                      ('; it says: ' + rules_line[0].strip()) if rules_line else ''),
                                        'schedule': {'property': ID, 'case': dict(case, files=[], commands=[cmd])}})
+                # --- the same with nobody reading stderr any more (`2>&1 | head`, a pager that was quit): the command cannot say
+                # what it has to say there.  It may stop over that, or say it on stdout; what it may not do is carry on to a
+                # successful end as if the file had loaded.
+                import zlib as _zlib
+                if not van and not absent and obs != 'diag' and (cmd['kind'] == 'views' or _zlib.crc32(needles[0].encode()) % 3 == 0):
+                    r2 = proc.run_cli(root, argv, {'reads': cmd.get('reads') or {}, 'net': 'down',
+                                                   'stdout_fault': {'after_effect': -1, 'stream': 'stderr'}}, ctl_parent=ctlp)
+                    count['command_runs'] += 1
+                    count['fired.stderr-gone'] = count.get('fired.stderr-gone', 0) + 1
+                    said = any(n in r2.out for n in needles)
+                    log.append(['cmd-stderr-gone', obs, cmd['kind'], cmd['class'], r2.exit, said])
+                    if r2.exit == 0 and not said and reported and r.exit == 0:
+                        violations.append({'invariant': 'REP',
+                                           'signature': {'kind': cmd['kind'], 'observer': obs, 'class': 'stderr-gone'},
+                                           'witness': '`tally %s` on a budget whose %s cannot be loaded (%s: %s), with nobody reading stderr: exits 0 '
+                                                      'without having said it anywhere' % (' '.join(argv), target, cmd['class'], needles[0][:120]),
+                                           'schedule': {'property': ID, 'case': dict(case, files=[], commands=[cmd])}})
+                    elif r2.exit != 0:
+                        count['died_of_broken_stderr'] = count.get('died_of_broken_stderr', 0) + 1
     finally:
         shutil.rmtree(scratch, ignore_errors=True)
     dig = util.digest(log)
